@@ -65,7 +65,7 @@ def variants(scn, r, tier, ref_seed):
 
 
 def mkworld(seed, scn):
-    return {"seed": seed, "scenario": scn, "monitors": [], "plan": [], "budget_steps": 3_000_000,
+    return {"seed": seed, "scenario": scn, "monitors": [], "plan": [], "budget_steps": 12_000_000,
             "record_fs": False}
 
 
@@ -169,6 +169,12 @@ def body(r):
                     r.report({"oracle": "C14-degenerate-digest", "key": "C14-degenerate-digest",
                               "detail": {"scenario": i}, "world": g["world"],
                               "job": {"label": g["label"], "reference": ref["world"]}})
+                continue
+            gex = (g.get("exits") or [None])[-1]
+            if g["run_digest"] is None and gex in (72, "wall_timeout"):
+                # the variant ran out of its step / wall budget (chunk size 1 multiplies the nessai line events
+                # per evaluation): inconclusive, not a different result
+                r.count(r.probes, "variant_inconclusive_budget")
                 continue
             if g["run_digest"] != ref["run_digest"] or g["evals"] != ref["evals"]:
                 r.report({"oracle": "C14-digest", "key": f"C14-digest|{g['label'].split('+')[0].rstrip('0123456789')}",
